@@ -32,9 +32,10 @@ def _one(args):
     mode = args[6] if len(args) > 6 else "serial"
     lose_idle = args[7] if len(args) > 7 else 0
     instant = list(args[8]) if len(args) > 8 and args[8] else []
+    idle_lines = {int(k): [bytes(x) for x in v] for k, v in (args[9] or {}).items()} if len(args) > 9 and args[9] else None
     return serial_rec.run_direct([bytes(s) for s in stmts], [bytes(a) for a in acks],
                                  status={int(k): [bytes(x) for x in v] for k, v in status.items()}, late_hs=late, lose_at=lose,
-                                 slow=slow, mode=mode, lose_idle_after=lose_idle, instant=instant)
+                                 slow=slow, mode=mode, lose_idle_after=lose_idle, instant=instant, idle_lines=idle_lines)
 
 
 def run_all(specs, par=12):
@@ -47,18 +48,20 @@ def enc(spec):
             "status": {str(k): [list(x) for x in v] for k, v in status.items()}, "late": late,
             "lose": spec[4] if len(spec) > 4 else 0, "slow": list(spec[5]) if len(spec) > 5 and spec[5] else None,
             "mode": spec[6] if len(spec) > 6 else "serial", "lose_idle": spec[7] if len(spec) > 7 else 0,
-            "instant": list(spec[8]) if len(spec) > 8 and spec[8] else []}
+            "instant": list(spec[8]) if len(spec) > 8 and spec[8] else [],
+            "idle_lines": {str(k): [list(x) for x in v] for k, v in spec[9].items()} if len(spec) > 9 and spec[9] else {}}
 
 
 def dec(d):
     return ([bytes(s) for s in d["stmts"]], [bytes(a) for a in d["acks"]],
-            {int(k): [bytes(x) for x in v] for k, v in d["status"].items()}, d["late"], d.get("lose", 0), d.get("slow"), d.get("mode", "serial"), d.get("lose_idle", 0), d.get("instant", []))
+            {int(k): [bytes(x) for x in v] for k, v in d["status"].items()}, d["late"], d.get("lose", 0), d.get("slow"), d.get("mode", "serial"), d.get("lose_idle", 0), d.get("instant", []),
+            {int(k): [bytes(x) for x in v] for k, v in d.get("idle_lines", {}).items()})
 
 
 def project(trace, spec):
     """A recorded execution in DirectWriteImpl's vocabulary (None if it is outside the model: loss, slow, stuck, ...)."""
     stmts, acks, status, late = spec[:4]
-    if (len(spec) > 4 and spec[4]) or (len(spec) > 5 and spec[5]) or (len(spec) > 7 and spec[7]):
+    if (len(spec) > 4 and spec[4]) or (len(spec) > 5 and spec[5]) or (len(spec) > 7 and spec[7]) or (len(spec) > 9 and spec[9]):
         return None
     if any(len(v) != 1 for v in status.values()):
         return None
@@ -124,7 +127,7 @@ def impl_conformance(traces, specs):
 
 class P(flow.Plan):
     pid = "C16"
-    clauses = ["C16_Order", "C16_Sync", "C16_Error", "C16_Returns", "C16_Disconnect", "C16_Loss", "H_Device"]
+    clauses = ["C16_Order", "C16_Sync", "C16_Error", "C16_Alarm", "C16_Returns", "C16_Disconnect", "C16_Loss", "H_Device"]
     trace_module = "DirectWriteTrace"
     shards = 8
     assumptions = ["the device answers every received line with exactly one acknowledgement, in order (scripted serial port)",
@@ -219,6 +222,8 @@ class P(flow.Plan):
         for i in range(n):
             rng = random.Random(sd * 9973 + i)
             k = rng.randint(1, 6)
+            if i % 9 == 4:
+                k = max(k, 2)                  # the alarm scenarios need a statement after the alarm
             stmts = [rng.choice(STMTS) for _ in range(k)]
             if i % 8 == 3:
                 stmts[rng.randrange(k)] = NONASCII     # what the builder emits for a comment with non-ASCII text
@@ -237,8 +242,12 @@ class P(flow.Plan):
             # zero latency: status lines and acknowledgement of the chosen statements are handled by the reader thread before
             # the sender's write() returns
             inst = sorted(rng.sample(range(1, k + 1), rng.randint(1, k))) if i % 6 == 5 and not lose and not slow and not idle else []
-            specs.append((stmts, acks, status, rng.random() < 0.15 and not lose and not slow and not idle and not inst,
-                          lose if mode == "serial" else 0, slow, mode, idle, inst))
+            # an error / alarm line while no statement is outstanding (added after seed C16d): the next write() raises it
+            alarms = {}
+            if i % 9 == 4 and k >= 2 and not lose and not slow and not idle and not inst:
+                alarms = {rng.randint(1, k - 1): [rng.choice(ERRS)]}
+            specs.append((stmts, acks, status, rng.random() < 0.15 and not lose and not slow and not idle and not inst and not alarms,
+                          lose if mode == "serial" else 0, slow, mode, idle, inst, alarms))
         traces = run_all(specs)
         for t in traces:
             t["meta"]["driver"] = "random"
